@@ -1,5 +1,6 @@
 PROP = dict(
-    modules=["Shangrla.Props.C02", "Shangrla.Props.RiskLimitComparisonOutcome", "Shangrla.Props.RiskLimitOutcome"],
+    modules=["Shangrla.Props.C02", "Shangrla.Props.C02Pairs", "Shangrla.Props.RiskLimitComparisonOutcome",
+             "Shangrla.Props.RiskLimitOutcome"],
     theorems=["Shangrla.C02.plurality_iff", "Shangrla.C02.plurality_iff_style", "Shangrla.C02.mean_style_nan",
               "Shangrla.C02.supermajority_iff", "Shangrla.C02.supermajority_iff_style", "Shangrla.C02.hasOneVote_eq",
               "Shangrla.C02.assort_range_plur", "Shangrla.C02.assort_range_super",
@@ -9,6 +10,10 @@ PROP = dict(
               "Shangrla.C02.superCands_perm",
               "Shangrla.C02.witness_F19", "Shangrla.C02.witness_super_noenforce",
               "Shangrla.C02.witness_super_outside",
+              # the loops of make_plurality_assertions (model Assorter.pluralityPairs, with the F30 repair): an assertion
+              # for EVERY (winner, loser) pair, each pair under its own name, refusal only for a genuine name clash
+              "Shangrla.C02.pluralityPairs_complete", "Shangrla.C02.pluralityPairs_sound",
+              "Shangrla.C02.pluralityPairs_ok_of_injective",
               # C02 composed with C03, C06, C09 and C01: a wrong reported outcome of a plurality / super-majority contest
               # on the manual records => the comparison / ONEAudit audit (literal overstatement model: pools, phantoms,
               # style filter) is ever reported complete with probability at most the risk limit; mvrOf is the bridge
